@@ -341,6 +341,29 @@ def _long_work(units):
     return out
 
 
+def _long_work_safe(units):
+    """_long_work unit by unit; an exception that comes out of the LIBRARY while a history of valid texts is being set up or
+    driven (a valid text refused, an evaluator that cannot be called) is a violation of the lifecycle, not a harness fault"""
+    import traceback
+
+    out = {"cov": {}, "viol": [], "outcomes": [], "samples": [], "known": {}}
+    for u in units:
+        try:
+            r = _long_work([u])
+        except Exception as e:  # noqa
+            tb = traceback.format_exc()
+            if "pyab_experiment" not in tb.split("_long_work", 1)[-1]:
+                raise
+            r = {"cov": {"violating_cases": 1}, "viol": [{"kind": "life:long", "period": u[0] if not isinstance(u[0], tuple) else [list(x) if isinstance(x, tuple) else x for x in u[0]], "steps": u[1], "evaluators": u[2], "text_index": -1,
+                                                         "why": f"driving a history of VALID texts failed inside the library: {type(e).__name__}: {str(e)[:160]} (in this process earlier histories had been run: state left behind by them)"}],
+                 "outcomes": [], "samples": [], "known": {}}
+        for k, v in r["cov"].items():
+            out["cov"][k] = out["cov"].get(k, 0) + v
+        out["viol"] += r["viol"]
+        out["outcomes"] += r["outcomes"]
+    return out
+
+
 def _pairs_work(units):
     """(current text, other text) colliding under a 32-bit fingerprint: recompile(other) on an evaluator
     built from `current` must do what a fresh construction from `other` does (switch or raise) - twice"""
@@ -474,7 +497,7 @@ def long_histories(res, tier):
     units += [(n, "fleet", 1) for n in ((300,) if tier == "quick" else (300, 2000))]
     K = 32 if tier == "quick" else 96
     units += [((b, which), "ladder", K if b < 40 else K // 2) for b in (1, 3, 12, 40) for which in range(5)]
-    for w in pmap(_long_work, units, chunk=1, inline_ok=False):
+    for w in pmap(_long_work_safe, units, chunk=1, inline_ok=False):
         res.merge_worker(w)
     res.set("long_history_periods", periods)
     res.set("rejection_ladders", {"branches": [1, 3, 12, 40], "max_consecutive_rejections": K, "plus": 4 * K})
